@@ -132,6 +132,15 @@ class InstrumentMachine(Machine):
                 v = self._invalid(rng, kind, a)
                 if v is not None:
                     ops.append({"op": "set", "attr": a, "value": v, "invalid": True})
+            elif u < 0.52 and kind != "polychromator":
+                # the caller keeps using the container it handed over: mutate it (must not reach the instrument), or edit it
+                # and assign the very same object again (must be picked up)
+                # (mutation without re-assignment only where the library documents a copy: Spectrometer converts its arrays;
+                #  CzernyTurnerSpectrometer / Polychromator keep the caller's list, see "assumptions")
+                if kind == "spectrometer":
+                    ops.append({"op": "caller.mutate", "attr": "wavelength_to_pixel", "scale": rng.choice([0.999, 1.0005, 1.01])})
+                else:
+                    ops.append({"op": "edit.reassign", "attr": "accommodated_spectra", "value": self._value(rng, kind, "accommodated_spectra", cfg)})
             elif u < 0.85 or kind == "polychromator":
                 ops.append({"op": "read", "what": sorted(rng.sample(READS, rng.choice([1, 1, 2, 3, len(READS)])))})
             else:
@@ -191,14 +200,27 @@ class InstrumentMachine(Machine):
         c.obj = self._construct(c, c.spec)
         c.warm = set()
         c.stale_risk = set()
+        c.handed = {}
         env.stats.add("kinds", c.kind)
         return c
 
-    def _apply(self, c, obj, attr, value):
+    def _apply(self, c, obj, attr, value, subject=False):
         if attr == "filters" and isinstance(value, list):
             value = [c.pool[i % len(c.pool)] for i in value]
+        elif attr == "wavelength_to_pixel" and subject and isinstance(value, list) and value \
+                and all(isinstance(v, list) and v and all(isinstance(x, float) for x in v) for v in value):
+            # hand over float64 ndarray *views* of one base buffer the caller keeps (rows of a calibration table)
+            base = np.zeros((len(value), max(len(v) for v in value)), dtype=np.float64)
+            views = []
+            for r, v in enumerate(value):
+                base[r, :len(v)] = v
+                views.append(base[r, :len(v)])
+            c.handed["wavelength_to_pixel"] = ("ndarray", base, views)
+            value = views
         elif isinstance(value, list):
             value = [list(v) if isinstance(v, list) else v for v in value]
+            if subject:
+                c.handed[attr] = ("list", value, None)
         setattr(obj, attr, value)
 
     def _param_getters(self, c, obj):
@@ -311,7 +333,7 @@ class InstrumentMachine(Machine):
             if a not in c.spec:
                 return "noop"
             try:
-                self._apply(c, c.obj, a, op["value"])
+                self._apply(c, c.obj, a, op["value"], subject=True)
                 c.spec[a] = op["value"]
             except Exception as e:
                 out = "raised:" + type(e).__name__
@@ -373,6 +395,39 @@ class InstrumentMachine(Machine):
                                     "only" % (type(e).__name__, e))
             c.warm.update(["min_wavelength", "max_wavelength", "spectral_bins"])
             env.event(k, "ok", ",".join(op["what"]))
+        elif k == "caller.mutate":
+            h = c.handed.get(op["attr"])
+            if h is None or op["attr"] not in c.spec:
+                return "noop"
+            if h[0] == "ndarray":
+                h[1][:] = h[1] * op["scale"]            # the caller rescales its own calibration table in place
+            else:
+                for item in h[1]:
+                    if isinstance(item, list) and item and isinstance(item[0], float):
+                        item[0] = item[0] * op["scale"]
+            # the instrument copied what it was given: nothing may change (specification untouched)
+            self._check_params(c, c.obj, c.spec, "subject")
+            env.probe("caller_container_mutated")
+            env.event(k, "ok", op["attr"])
+        elif k == "edit.reassign":
+            a = op["attr"]
+            h = c.handed.get(a)
+            if h is None or h[0] != "list" or a not in c.spec:
+                return "noop"
+            lst = h[1]
+            new = [list(v) if isinstance(v, list) else v for v in op["value"]]
+            del lst[:]
+            lst.extend(new)                                  # edited in place ...
+            try:
+                setattr(c.obj, a, lst)                       # ... and the very same object assigned again
+                c.spec[a] = op["value"]
+            except Exception as e:
+                out = "raised:" + type(e).__name__
+            if c.warm:
+                c.stale_risk |= c.warm
+            self._check_params(c, c.obj, c.spec, "subject")
+            env.probe("same_object_reassigned_after_edit")
+            env.event(k, out.split(":")[0], a)
         elif k == "calibrate":
             if c.kind == "polychromator":
                 return "noop"
